@@ -236,6 +236,10 @@ class TermEval:
                 continue                      # statically infeasible choice
             q = p.fork()
             q.conds += conds
+            for t, c in tests:                  # `',' if xs else ''`: on the else side xs is empty
+                emp = self._emptiness(t, p)
+                if emp is not None and emp[1] is c:
+                    q.env["#empty:" + emp[0]] = SNone()
             out += self._simple(s2, q)
         return out
 
@@ -296,30 +300,71 @@ class TermEval:
                 v = env.get(node.id)
                 if isinstance(v, SObj) and "[" not in v.role and isinstance(node.ctx, ast.Load):
                     return ast.Attribute(value=ast.Name(id="self", ctx=ast.Load()), attr=v.role, ctx=ast.Load())
+                if isinstance(v, SOpq) and v.kind == "expr" and isinstance(node.ctx, ast.Load):
+                    # a named test (many = len(args) > 1 ... if many:) is recorded as the test it names
+                    try:
+                        t = ast.parse(v.text, mode="eval").body
+                    except SyntaxError:
+                        return node
+                    if isinstance(t, (ast.Compare, ast.BoolOp)) or (isinstance(t, ast.UnaryOp) and isinstance(t.op, ast.Not)):
+                        return t
                 return node
-        if not any(isinstance(n, ast.Name) and isinstance(env.get(n.id), SObj) for n in ast.walk(test)):
+        if not any(isinstance(n, ast.Name) and isinstance(env.get(n.id), (SObj, SOpq)) for n in ast.walk(test)):
             return src(test)
         return src(ast.fix_missing_locations(A().visit(copy.deepcopy(test))))
 
     def _if(self, s: ast.If, p: Path) -> List[Path]:
+        # a test on the *content* of generated text (`")" in body`) selects paths by what the holes are filled with: a template with
+        # holes cannot stand for such a function
+        for c_ in ast.walk(s.test):
+            if isinstance(c_, ast.Compare) and len(c_.ops) == 1 and isinstance(c_.ops[0], (ast.In, ast.NotIn)) and isinstance(c_.comparators[0], ast.Name):
+                v_ = p.env.get(c_.comparators[0].id)
+                if isinstance(v_, SStr) and any(not isinstance(x, Lit) for x in v_.parts):
+                    raise _Unsupported("test on the content of generated text: %s" % src(c_))
         verdict = self._static_test(s.test, p)
         out: List[Path] = []
-        lenof = None
-        if isinstance(s.test, (ast.Name, ast.Attribute)):
-            tv = self._expr(s.test, p)
-            if isinstance(tv, SOpq) and tv.kind == "len":
-                lenof = tv.text
+        emp = self._emptiness(s.test, p)
         if verdict is not False:
             q = p.fork()
             q.conds.append((self._ctext(s.test, p), True))
+            if emp is not None and emp[1] is True:
+                q.env["#empty:" + emp[0]] = SNone()
             out += self._block(s.body, [q])
         if verdict is not True:
             q = p.fork()
             q.conds.append((self._ctext(s.test, p), False))
-            if lenof is not None:
-                q.env["#empty:" + lenof] = SNone()      # `if len(xs):` false -> xs is empty on this path
+            if emp is not None and emp[1] is False:
+                q.env["#empty:" + emp[0]] = SNone()      # `if len(xs):` false -> xs is empty on this path
             out += self._block(s.orelse, [q]) if s.orelse else [q]
         return out
+
+    def _emptiness(self, test: ast.AST, p: Path):
+        """(role of a list, truth value of *test* on which that list is empty) when *test* is a test for emptiness:
+        `xs`, `len(xs)`, a local holding len(xs), `not xs`, `len(xs) > 0`, `len(xs) == 0`."""
+        if isinstance(test, ast.UnaryOp) and isinstance(test.op, ast.Not):
+            r = self._emptiness(test.operand, p)
+            return None if r is None else (r[0], not r[1])
+        if isinstance(test, ast.Compare) and len(test.ops) == 1 and isinstance(test.comparators[0], ast.Constant) \
+                and isinstance(test.comparators[0].value, int):
+            r = self._emptiness(test.left, p)
+            k, op = test.comparators[0].value, test.ops[0]
+            if r is None or r[1] is not False:
+                return None
+            if (isinstance(op, (ast.Gt, ast.NotEq)) and k == 0) or (isinstance(op, ast.GtE) and k == 1):
+                return r
+            if (isinstance(op, (ast.Eq, ast.LtE)) and k == 0) or (isinstance(op, ast.Lt) and k == 1):
+                return (r[0], True)
+            return None
+        if isinstance(test, (ast.Name, ast.Attribute, ast.Call)):
+            try:
+                tv = self._expr(test, p.fork())
+            except _Unsupported:
+                return None
+            if isinstance(tv, SOpq) and tv.kind == "len":
+                return (tv.text, False)
+            if isinstance(tv, SList):
+                return (tv.role, False)
+        return None
 
     def _static_test(self, test: ast.AST, p: Path) -> Optional[bool]:
         """Decide a test statically where the repository makes that possible."""
@@ -587,6 +632,8 @@ class TermEval:
                 gen = e.args[0].generators[0]
                 q0 = p.fork()
                 it = self._expr(gen.iter, q0)
+                if isinstance(it, SList) and ("#empty:" + it.role) in p.env:
+                    return SStr(())                            # the list is empty on this path
                 if isinstance(gen.target, ast.Name):
                     q0.env[gen.target.id] = SObj(it.role + "[]", it.domain) if isinstance(it, SList) else SOpq("number", gen.target.id)
                 body = self._to_parts(self._expr(e.args[0].elt, q0), q0)
